@@ -3,7 +3,7 @@ From Coq Require Import List Arith Bool Lia.
 Import ListNotations.
 Require Import MayV.Sync.ChanMpmcModel MayV.Sync.ChanMpmcInv.
 Require Import MayV.Sync.ChanMpmcTac.
-Lemma pres_e1 s ac s' : Inv s -> step true true s ac = Some s' -> txp s' <> 0 ->
+Lemma pres_e1 c s ac s' : Inv s -> step true true c s ac = Some s' -> txp s' <> 0 ->
   length (q s') <= sv s' + length (hold s') + length (pend s') /\ (rxp s' <> 0 -> sv s' + length (hold s') + length (pend s') <= length (q s')).
 Proof.
   intros Hi H. pose proof (I_e1 _ Hi) as P. destruct (I_nd _ Hi) as (N1 & N2 & N3 & N4 & N5 & N6).
@@ -18,8 +18,8 @@ Proof.
   all: try (assert (rxp s = 0) by tauto; lia).
 Qed.
 
-Lemma pres_r78 s ac s' : Inv s -> step true true s ac = Some s' -> forall r,
-  (rp (Rv s' r) = Y3n \/ rp (Rv s' r) = Y4n \/ rp (Rv s' r) = Y4s -> txp s' = 0) /\ rp (Rv s' r) <> RPanic.
+Lemma pres_r78 c s ac s' : Inv s -> step true true c s ac = Some s' -> forall r,
+  (rp (Rv s' r) = Y3n \/ rp (Rv s' r) = Y4n \/ rp (Rv s' r) = Y4s \/ rp (Rv s' r) = Y0b -> txp s' = 0) /\ rp (Rv s' r) <> RPanic.
 Proof.
   intros Hi H r0. pose proof (I_R _ Hi r0) as P. unfold rinv in P. boolh. pose proof (I_e1 _ Hi) as E1.
   destruct (I_nd _ Hi) as (N1 & N2 & N3 & N4 & N5 & N6).
@@ -31,7 +31,7 @@ Proof.
   all: repeat match goal with E : rp _ = _ |- _ => rewrite E in * end.
   all: fin.
   split; [intros _ | discriminate].
-  destruct (Nat.eq_dec (txp s) 0) as [|T]; auto. destruct (E1 T) as [_ E2]. specialize (E2 H21).
+  destruct (Nat.eq_dec (txp s) 0) as [|T]; auto. destruct (E1 T) as [_ E2]. assert (X : rxp s <> 0) by assumption. specialize (E2 X).
   assert (I : In r (hold s)) by tauto. destruct (hold s); [destruct I | cbn in E2; lia].
 Qed.
 
@@ -39,7 +39,7 @@ Lemma g1of_other s a y : (forall b, dropper s = Some b -> b <> a) ->
   match dropper s with Some b => match sp (upd (Sd s) a y b) with G1 => 1 | _ => 0 end | None => 0 end = g1of s.
 Proof. unfold g1of. intros H. destruct (dropper s) as [b|]; auto. rewrite upd_neq; auto. Qed.
 
-Lemma pres_j1 s ac s' : Inv s -> step true true s ac = Some s' -> txp s' = 0 ->
+Lemma pres_j1 c s ac s' : Inv s -> step true true c s ac = Some s' -> txp s' = 0 ->
   length (q s') <= sv s' + length (hold s') + length (rep s') + g1of s'.
 Proof.
   intros Hi H. pose proof (I_j1 _ Hi) as P. pose proof (I_e1 _ Hi) as E1. destruct (I_nd _ Hi) as (N1 & N2 & N3 & N4 & N5 & N6).
@@ -59,7 +59,7 @@ Proof.
   destruct E1 as [E1 _]; [lia|]. rewrite Pe in E1. cbn in E1. lia.
 Qed.
 
-Lemma pres_j2 s ac s' : Inv s -> step true true s ac = Some s' -> txp s' = 0 -> dropper s' = None ->
+Lemma pres_j2 c s ac s' : Inv s -> step true true c s ac = Some s' -> txp s' = 0 -> dropper s' = None ->
   1 <= sv s' + length (hold s') + length (rep s').
 Proof.
   intros Hi H. pose proof (I_j2 _ Hi) as P. destruct (I_nd _ Hi) as (N1 & N2 & N3 & N4 & N5 & N6).
